@@ -1,1 +1,2 @@
 import Dalek.Props.C09.Verify
+import Dalek.Props.C08.HashInputs
